@@ -2,8 +2,11 @@
 """usage: seedrefresh3.py <checker-binary> <desc.py>   Re-evaluates every round-3 seed (meta.json round == 3) at /repo HEAD
 with the given binary, updates detected/reported in meta.json and fills detected_by from the description table."""
 import sys, os, subprocess, json, shutil, re, glob
-binp, descp = sys.argv[1:3]
-ns = {}; exec(open(descp).read(), ns)
+binp = sys.argv[1]
+ns = {"DESC": {}, "DET": {}}
+for descp in sys.argv[2:]:
+    one = {}; exec(open(descp).read(), one)
+    ns["DESC"].update(one.get("DESC", {})); ns["DET"].update(one.get("DET", {}))
 env = dict(os.environ, GOFLAGS="-mod=mod", GOPROXY="off", GOSUMDB="off", GOTOOLCHAIN="local"); env.pop("GOWORK", None)
 wt = f"/tmp/wt-refresh3-{os.getpid()}"; sv = f"/tmp/refresh3-verif-{os.getpid()}"
 subprocess.run(["git","-C","/repo","worktree","add","-q","--detach",wt,"HEAD"],check=True)
